@@ -1243,6 +1243,7 @@ class Model:
         if options["reduce_affine_expression"]:
             logger.info("Collapsing model into an affine expression")
 
+            states_vector = None
             for equation_list in ["equations", "initial_equations"]:
                 equations = getattr(self, equation_list)
                 if len(equations) > 0:
@@ -1259,9 +1260,11 @@ class Model:
                     equations = ca.veccat(*equations)
 
                     Af = ca.Function(
-                        "Af", [states, constants, parameters], [ca.jacobian(equations, states)]
+                        "Af",
+                        [states, constants, parameters, self.time],
+                        [ca.jacobian(equations, states)],
                     )
-                    bf = ca.Function("bf", [states, constants, parameters], [equations])
+                    bf = ca.Function("bf", [states, constants, parameters, self.time], [equations])
 
                     # Work around CasADi issue #172
                     if len(self.constants) == 0 or not ca.depends_on(equations, constants):
@@ -1277,10 +1280,16 @@ class Model:
                             "Not all parameters have been eliminated.  As a result, the affine DAE expression will use a symbolic matrix, as opposed to a numerical sparse matrix."
                         )
 
-                    A = Af(0, constants, parameters)
-                    b = bf(0, constants, parameters)
+                    A = Af(0, constants, parameters, self.time)
+                    b = bf(0, constants, parameters, self.time)
 
                     # Replace veccat'ed states with brand new state vectors so as to avoid the value copy operations induced by veccat.
+                    # Both equation lists share them: the residual functions take one set of inputs.
+                    if states_vector is not None:
+                        equations = [ca.reshape(ca.mtimes(A, states_vector), equations.shape) + b]
+                        setattr(self, equation_list, equations)
+                        continue
+
                     self._states_vector = ca.MX.sym(
                         "states_vector", sum([s.numel() for s in self._symbols(self.states)])
                     )
